@@ -334,14 +334,14 @@ pub fn s2(sink: &mut Sink, frag: usize, thorough: bool) -> (usize, usize) {
     first.resize(frag, 0x5a);
     let cont = vec![0xa5u8; frag];
     let full = (MAX_DATA - 1) / frag; // number of whole fragments that still fit below the cap
-    for d in finals {
+    for (d, hdr_mode) in finals.iter().flat_map(|d| [(*d, 0u8), (*d, 1), (*d, 2)]) {
         histories += 1;
         let mut p = TlsRecordsParser::default();
         let mut acc: Vec<u8> = Vec::new();
         let mut fail = |sink: &mut Sink, step: usize, what: String| {
             sink.violation(
-                format!("S2 frag={} final={} step={}", frag, d, step),
-                format!("[S2] fragments of {} bytes, final delta {}: step {}: {}", frag, d, step, what),
+                format!("S2 frag={} final={} hdr={} step={}", frag, d, hdr_mode, step),
+                format!("[S2] fragments of {} bytes, final delta {} (declared length mode {}): step {}: {}", frag, d, hdr_mode, step, what),
                 json!({"kind":"cap","frag":frag,"final_delta":d}),
             );
         };
@@ -387,11 +387,17 @@ pub fn s2(sink: &mut Sink, frag: usize, thorough: bool) -> (usize, usize) {
         // final fragment making the total land on cap + d
         let fl = (MAX_DATA as i64 + d - acc.len() as i64) as usize;
         let last = vec![0x77u8; fl];
+        // the declared length of the last fragment: consistent, understated (0) or overstated (65535)
+        let declared = match hdr_mode {
+            0 => fl as u16,
+            1 => 0,
+            _ => 65535,
+        };
         let r = TlsRawRecord {
             hdr: TlsRecordHeader {
                 record_type: TlsRecordType(0x16),
                 version: TlsVersion(0x0303),
-                len: fl as u16,
+                len: declared,
             },
             data: &last,
         };
